@@ -13,7 +13,9 @@ ASSUMPTIONS = [
     "day-count oracle: 365 days per year + one per leap year before it (closed form of the 4/100/400 rule) + month lengths; cross-checked on every run against Howard Hinnant's days_from_civil "
     "by the solver over a full 400-year cycle and against Python's datetime on sampled dates",
     "the float values inside compute_gregorian (day counts, days in year) are integers below 2^53: E2 executes them in the exact-integer subset of IEEE-754 binary64 and proves, at every operation, "
-    "that the value stays in that subset; div_rem_f64 (a real float division) enters through its contract, which Kani/CBMC decides bit-precisely on the real code (c09_div_rem_contract)",
+    "that the value stays in that subset; div_rem_f64 / div_euclid_f64 / rem_euclid_f64 are executed from their own MIR: the one real division is followed by trunc(), and trunc(fl(a / b)) == trunc(a / b) "
+    "for the admitted operands (|a| <= 1.3e9, b = the crate's constant) is decided bit-precisely by Kani/CBMC (c09_float_div_lemma); `%` on f64 is fmod, which is exact by definition (for integers: the truncating remainder). "
+    "Kani could not decide a contract of div_rem_f64 itself: CBMC over-approximates fmod, its counterexample did not reproduce natively (false alarm of the encoding, corrected by moving the function into E2)",
     "Duration +, -, +=, Unit x i64 enter through their contracts (count = clamp(exact)), which the listed C01/C02 obligations decide on the real code in the same run",
     "text forms (Display, Debug, LowerHex, ..., to_gregorian_str) print these seven fields through core::fmt: the rendering itself is outside (see C10); year(), month_name() are decided here",
     "termination of the two `while` loops is not part of the inductive argument (partial correctness); ET/TDB: fields in the epoch's own scale only",
@@ -68,7 +70,7 @@ def inv_for(sign):
         it0, it = entry["iter"], cur["iter"]
         s0, e0, s, e = Z(it0.fields[0].e), Z(it0.fields[1].e), Z(it.fields[0].e), Z(it.fields[1].e)
         diy = _fl(cur["days_in_year"])
-        return z3.And(e == e0, s >= s0, s <= e0, s >= -YB, s <= YB, diy >= -DB, diy <= DB, Lf(s) - Lf(s0) >= 0, Lf(s) - Lf(s0) <= s - s0,
+        return z3.And(e == e0, s >= s0, z3.Or(s <= e0, s == s0), s >= -YB, s <= YB, diy >= -DB, diy <= DB, Lf(s) - Lf(s0) >= 0, Lf(s) - Lf(s0) <= s - s0,
                       diy == _fl(entry["days_in_year"]) + sign * (Lf(s) - Lf(s0)))
     return inv
 
@@ -159,7 +161,6 @@ def loop_contracts():
 def summaries():
     s = dict(dur_arith_summaries())
     s["::gregorian_epoch_offset"] = summary_gregorian_epoch_offset
-    s["div_rem_f64"] = summary_div_rem_f64
     s["::decompose"] = summary_decompose
     s["is_leap_year"] = summary_is_leap_year
     return s
@@ -209,10 +210,11 @@ def obligations(tier, seed):
               bounds="every canonical duration with |centuries| <= 30000 x nine scales, nanosecond resolution; no unrolling (four loop invariants, one inductive step each)",
               outside="termination of the two while loops; |centuries| > 30000 (year beyond +/-3.0M)",
               functions=["Epoch::compute_gregorian", "Duration::decompose", "Duration::compose / compose_f64 (exact-integer floats)", "impl Mul<f64> for Unit", "Duration::signum",
-                         "is_leap_year", "CUMULATIVE_DAYS_FOR_MONTH(_LEAP_YEARS)", "slice::binary_search (documented contract)", "div_rem_f64 (contract, Kani)",
+                         "is_leap_year", "CUMULATIVE_DAYS_FOR_MONTH(_LEAP_YEARS)", "slice::binary_search (documented contract)", "div_rem_f64", "div_euclid_f64", "rem_euclid_f64",
                          "TimeScale::gregorian_epoch_offset (contract, Kani)", "Duration + / - (contracts, C01)"]),
-        KaniOb("c09", "c09_div_rem_contract", "contract used by E2: div_rem_f64(a, days-per-year) == (floor(a / b), a mod b) for every integer-valued a, |a| <= 1.3e9 (bit-precise IEEE-754 division, trunc, fmod)",
-               ["epoch::div_rem_f64", "div_euclid_f64", "rem_euclid_f64"], "every integer |a| <= 1 300 000 000; b = the crate's DAYS_PER_YEAR_NLD", tq=1800),
+        KaniOb("c09", "c09_float_div_lemma", "IEEE-754 fact used by E2 for the one real float division inside compute_gregorian: trunc(fl(a / b)) == trunc(a / b) for every integer |a| <= 1.3e9 and the crate's "
+               "days-per-year constant b (bit-precise binary64 division and trunc, decided by CBMC)",
+               ["f64 division", "f64::trunc", "DAYS_PER_YEAR_NLD"], "every integer |a| <= 1 300 000 000; b = the crate's DAYS_PER_YEAR_NLD (an integer in 300..400)", tq=2400),
         KaniOb("c08", "c08_gregorian_offsets", "contract used by E2: gregorian_epoch_offset is the civil zero of each of the nine scales",
                ["TimeScale::gregorian_epoch_offset", "TimeScale::prime_epoch_offset"], "nine scales, concrete per scale", tq=900),
     ]
